@@ -18,8 +18,9 @@ var profile = gen.Profile{
 	MinSteps: 3, MaxSteps: 24, Limits: []int{32},
 	PNote: 25, PGate: 70, PInvalid: 14, PUnknown: 10, PBatch: 45, MaxBatch: 5,
 	PBurst: 35, Builtins: true, Pins: true,
-	Outcomes: []string{"ok", "ok", "err:-32000", "err:7", "bad", "err:-32600", "err:-32700"},
-	Chans:    []string{"direct", "pipe"},
+	Outcomes:      []string{"ok", "ok", "err:-32000", "err:7", "bad", "err:-32600", "err:-32700"},
+	Chans:         []string{"direct", "pipe"},
+	PBaseDeadline: 0,
 }
 
 func genCase(t *rapid.T) sim.Scenario { return gen.ServerScenario(t, profile) }
@@ -30,7 +31,15 @@ func run(t *testing.T, sc sim.Scenario) engine.Verdict {
 	})
 }
 
+func runDeadline(t *testing.T, sc sim.Scenario) engine.Verdict {
+	v := oracle.RunServer(t, sc, []string{"C01/"}, func(f oracle.Facts) bool { return true })
+	v.Labels = append(v.Labels, "base-deadline")
+	return v
+}
+
 var parts = []engine.AnyPart{
+	engine.Part[sim.Scenario]{Name: "deadline", Run: runDeadline, Gen: func(t *rapid.T) sim.Scenario { return gen.DeadlineScenario(t) },
+		Rule: "structured scenarios on a server whose request contexts carry a 50ms deadline: slots filled with parked calls, further calls and notifications waiting for a slot or behind the barrier, the fake clock advanced past their deadline, fresh requests, slots given back; every later call must still get exactly one response; non-trivial by construction"},
 	engine.Part[sim.Scenario]{Name: "scenarios", Run: run, Gen: genCase,
 		Rule:        "rapid-generated scripts of 3-24 steps (inbound single/batch records mixing parking and immediate calls, notifications, unknown/reserved methods and 10 invalid shapes; releases in any order with result / error / unmarshalable outcomes; bursts of unsettled steps; hook delays from a generated salt and pins) run against a real Server in a synctest bubble and judged by the sequential model at every quiescent point; non-trivial = handlers of two records parked at once, or a batch whose handlers returned out of request order, or a batch mixing two of {call, notification, invalid}; distinct = hash of the whole scenario",
 		Assumptions: []string{"interleavings are steered at the verifPoint sites, by bursts and by gated handlers; pre-emption inside a critical section is not explored"}},
